@@ -81,6 +81,15 @@ static tree_node_t *mknode(fstree_t *fs, tree_node_t *parent, const char *name,
 	size_t size;
 	char *ptr;
 
+	/* owner IDs and device numbers are 32 bit wide in SquashFS */
+	if (ent->uid > 0x0FFFFFFFFUL || ent->gid > 0x0FFFFFFFFUL ||
+	    ((S_ISBLK(ent->mode) || S_ISCHR(ent->mode)) &&
+	     !(ent->flags & SQFS_DIR_ENTRY_FLAG_HARD_LINK) &&
+	     ent->rdev > 0x0FFFFFFFFUL)) {
+		errno = EOVERFLOW;
+		return NULL;
+	}
+
 	size = sizeof(tree_node_t) + name_len + 1;
 	if (extra != NULL)
 		size += strlen(extra) + 1;
